@@ -15,3 +15,10 @@ func TestVerifC08Recycle(t *testing.T) {
 		return dnsmsg.NewCloner(dnsmsg.EmptyClonerStat{})
 	})
 }
+
+// TestVerifC08Concurrent is the concurrent part of C08; see c08_concurrent.go.
+func TestVerifC08Concurrent(t *testing.T) {
+	dnsserver.Vc08RunConcurrent(t, func() (c dnsserver.Vc08Cloner) {
+		return dnsmsg.NewCloner(dnsmsg.EmptyClonerStat{})
+	})
+}
